@@ -760,6 +760,12 @@ func buildDocPool(cfg Config) (*docPool, error) {
 		b, _ := corpus.LongLineBase(f)
 		p.docs = append(p.docs, corpus.Doc{Name: "rich-" + f, Format: f, Data: b})
 	}
+	// STL files announcing a character code table other than Latin (rejected today: the error path, and whatever
+	// a later change makes of those tables, runs concurrently too)
+	for _, cct := range []string{"01", "02", "04"} {
+		blocks := [][]byte{corpus.TTI(0, 0xff, [4]byte{0, 0, 1, 0}, [4]byte{0, 0, 2, 0}, 20, 2, []byte{0x0b, 0x0b, 'c', 'c', 't', ' ', 0xc2, 'e'})}
+		p.docs = append(p.docs, corpus.Doc{Name: "stl-cct" + cct, Format: "stl", Data: corpus.BuildSTLVariant(25, '1', "cct", "00000000", blocks, corpus.STLVariant{CCT: cct})})
+	}
 	// invalid documents (error paths run concurrently too): seeded mutations of small generated documents
 	mr := root.Derive("c20-invalid", 0)
 	for _, f := range []string{"srt", "vtt", "ssa", "ttml", "stl"} {
